@@ -5,7 +5,6 @@ import (
 	"unicode"
 
 	"git.sr.ht/~rockorager/vaxis"
-	"golang.org/x/exp/slices"
 )
 
 const scrolloff = 4
@@ -80,9 +79,7 @@ func (m *Model) String() string {
 func (m *Model) Update(msg vaxis.Event) {
 	switch msg := msg.(type) {
 	case vaxis.PasteEndEvent:
-		chars := vaxis.Characters(string(m.paste))
-		m.content = slices.Insert(m.content, m.cursor, chars...)
-		m.cursor += len(chars)
+		m.insert(string(m.paste))
 		m.paste = []rune{}
 	case vaxis.Key:
 		if msg.EventType == vaxis.EventRelease {
@@ -205,11 +202,7 @@ func (m *Model) Update(msg vaxis.Event) {
 				return
 			}
 			if msg.Text != "" {
-				chars := vaxis.Characters(msg.Text)
-				for _, char := range chars {
-					m.content = slices.Insert(m.content, m.cursor, char)
-					m.cursor += 1
-				}
+				m.insert(msg.Text)
 			}
 		}
 	}
@@ -218,6 +211,38 @@ func (m *Model) Update(msg vaxis.Event) {
 	}
 	if m.cursor < 0 {
 		m.cursor = 0
+	}
+}
+
+// insert puts s at the cursor. The text can join the character before the
+// cursor (a combining mark typed after its base) or the one behind it, so the
+// line is segmented again. The cursor ends up behind the character which holds
+// the end of s
+func (m *Model) insert(s string) {
+	if m.cursor > len(m.content) {
+		m.cursor = len(m.content)
+	}
+	if m.cursor < 0 {
+		m.cursor = 0
+	}
+	buf := strings.Builder{}
+	for _, ch := range m.content[:m.cursor] {
+		buf.WriteString(ch.Grapheme)
+	}
+	buf.WriteString(s)
+	end := buf.Len()
+	for _, ch := range m.content[m.cursor:] {
+		buf.WriteString(ch.Grapheme)
+	}
+	m.content = vaxis.Characters(buf.String())
+	m.cursor = len(m.content)
+	n := 0
+	for i, ch := range m.content {
+		n += len(ch.Grapheme)
+		if n >= end {
+			m.cursor = i + 1
+			break
+		}
 	}
 }
 
